@@ -50,7 +50,9 @@ CHECKS = {
         level="exploration", ref="4/C04",
         text="pack/unpack round trips for every leading dimension 1..64 (1..257 thorough), all 256 byte values through "
              "every route of torch.ops.quanto.unpack (python, sanitized C++, extensions on/off, failing extension), "
-             "packed-tensor operations against the unpacked reference; ASan/UBSan log must hold no report.",
+             "packed-tensor operations against the unpacked reference (a fixed list plus random draws from a pool of 75 "
+             "programs with every dimension argument over -ndim..ndim-1, and in-place programs whose results fit the "
+             "packed width); ASan/UBSan log must hold no report.",
         note="Byte and residue spaces are enumerated completely; shapes/layouts are sampled. A clean sanitizer log is 'no "
              "report on the observed calls'. CUDA/MPS kernels cannot run here."),
     "C05": dict(
@@ -135,7 +137,8 @@ CHECKS = {
              "bijection, unpack its inverse, independent of values and of earlier packings in the process); v2 payloads "
              "must equal external/awq pack_intweight bit for bit; float16 group-128 int4 weights must dequantize alike in "
              "both representations and convert back (qbits_tensor / save_to_state_dict) to identical codes, scales and "
-             "zero-points.",
+             "zero-points. Code matrices are contiguous, transposed-storage, windowed or strided views and are held "
+             "in five integer dtypes.",
         note="Assumes reshape/permute/shift/or behave the same on CPU and CUDA. The selection of the AWQ class and the "
              "device-move glue need a CUDA device and are not executed; CUDA gemm kernels are out of reach."),
     "C12": dict(
